@@ -194,9 +194,12 @@ func (s *ArrayExp) getSubnodes() []AstNodable {
 }
 
 func (s *MapExp) getSubnodes() []AstNodable {
+	// In sorted key order (which is also the order they are formatted in),
+	// so that the result - and so which of several entries on the same
+	// source line a preceding comment is attached to - is repeatable.
 	subs := make([]AstNodable, 0, len(s.Value))
-	for _, n := range s.Value {
-		subs = append(subs, n)
+	for _, key := range s.sortedKeys() {
+		subs = append(subs, s.Value[key])
 	}
 	return subs
 }
